@@ -113,15 +113,29 @@ class Hook:
         self.hook = LineLocalsHook(FP.MultiPartParser.parse, on_line)
 
 
-def parse_direct(W, body, mem, parts_lim, bufsize, k):
+def parse_direct(W, body, mem, parts_lim, bufsize, k, via=None):
     FP = W["FP"]
     from werkzeug.exceptions import RequestEntityTooLarge
 
-    p = FP.MultiPartParser(max_form_memory_size=mem, max_form_parts=parts_lim, buffer_size=bufsize)
     st = Short(body, k)
     CONFIGURED["mem"] = mem
     try:
-        form, files = p.parse(st, BND, len(body))
+        if via is not None:
+            # the public entry point with all three limits configured (max_content_length itself is only applied by
+            # parse_from_environ; its presence must not change what the other two limits do)
+            class _P(FP.MultiPartParser):
+                def __init__(self, *a, **kw):
+                    kw["buffer_size"] = bufsize
+                    super().__init__(*a, **kw)
+
+            orig, FP.MultiPartParser = FP.MultiPartParser, _P
+            try:
+                _, form, files = FP.FormDataParser(max_form_memory_size=mem, max_content_length=via, max_form_parts=parts_lim).parse(
+                    st, "multipart/form-data", len(body), {"boundary": BND.decode()})
+            finally:
+                FP.MultiPartParser = orig
+        else:
+            form, files = FP.MultiPartParser(max_form_memory_size=mem, max_form_parts=parts_lim, buffer_size=bufsize).parse(st, BND, len(body))
         return ("ok", [(a, v) for a, v in form.items(multi=True)], [(a, f.read()) for a, f in files.items(multi=True)]), st
     except RequestEntityTooLarge:
         return ("413",), st
@@ -177,7 +191,12 @@ def check_parser(W, rec, rng, hook):
     hook.limit = None
     base, _ = parse_direct(W, body, None, None, bufsize, k)
     hook.limit = mem
-    r, st = parse_direct(W, body, mem, pl, bufsize, k)
+    via = None
+    if mem is not None and rng.random() < 0.35:
+        via = rng.choice([1, max(1, mem - 1), mem, mem + 1, 10**7])
+        rec.observe("parser_cases_via_FormDataParser")
+        case["max_content_length_on_parser"] = via
+    r, st = parse_direct(W, body, mem, pl, bufsize, k, via)
     hook.limit = None
     field_sizes = [len(d) for a, n, d in parts if a == "field"]
     near = (mem is not None and any(abs(s - mem) <= 1 for s in field_sizes)) or (pl is not None and abs(nparts - pl) <= 1) or special
@@ -284,6 +303,12 @@ def check_request(W, rec, rng):
     near = (memv is not None and abs(biggest - memv) <= 1) or (mcl is not None and abs(len(body) - mcl) <= 1)
     if near or (kind == "urlencoded" and not with_cl):
         rec.nontrivial(hash((body[:64], len(body), memv, mcl, pl, with_cl, terminated, k)) & 0xFFFFFFFFFFFFFFFF)
+    if rng.random() < 0.3:
+        # history: a middleware built its own request object on this environ (no limits there) and looked at the
+        # stream without reading it; the application's limits still apply to the application's request
+        W["Request"](env).stream  # noqa: B018
+        rec.observe("request_cases_after_another_request_object")
+        case["another_request_object_first"] = True
     r = R(env)
     CONFIGURED["mem"] = memv
     try:
